@@ -237,10 +237,10 @@ type integer interface {
 	~int32 | ~int64 | ~uint32 | ~uint64 | ~uintptr
 }
 
-func AtomicAdd[T integer](p *T, d T) T   { atomicPoint(); *p += d; return *p }
-func AtomicLoad[T integer](p *T) T       { atomicPoint(); return *p }
-func AtomicStore[T integer](p *T, v T)   { atomicPoint(); *p = v }
-func AtomicSwap[T integer](p *T, v T) T  { atomicPoint(); o := *p; *p = v; return o }
+func AtomicAdd[T integer](p *T, d T) T  { atomicPoint(); *p += d; return *p }
+func AtomicLoad[T integer](p *T) T      { atomicPoint(); return *p }
+func AtomicStore[T integer](p *T, v T)  { atomicPoint(); *p = v }
+func AtomicSwap[T integer](p *T, v T) T { atomicPoint(); o := *p; *p = v; return o }
 func AtomicCAS[T integer](p *T, o, n T) bool {
 	atomicPoint()
 	if *p == o {
@@ -254,10 +254,10 @@ func AtomicCAS[T integer](p *T, o, n T) bool {
 
 type AtomicInt[T integer] struct{ v T }
 
-func (a *AtomicInt[T]) Load() T       { atomicPoint(); return a.v }
-func (a *AtomicInt[T]) Store(v T)     { atomicPoint(); a.v = v }
-func (a *AtomicInt[T]) Add(d T) T     { atomicPoint(); a.v += d; return a.v }
-func (a *AtomicInt[T]) Swap(v T) T    { atomicPoint(); o := a.v; a.v = v; return o }
+func (a *AtomicInt[T]) Load() T    { atomicPoint(); return a.v }
+func (a *AtomicInt[T]) Store(v T)  { atomicPoint(); a.v = v }
+func (a *AtomicInt[T]) Add(d T) T  { atomicPoint(); a.v += d; return a.v }
+func (a *AtomicInt[T]) Swap(v T) T { atomicPoint(); o := a.v; a.v = v; return o }
 func (a *AtomicInt[T]) CompareAndSwap(o, n T) bool {
 	atomicPoint()
 	if a.v == o {
@@ -275,8 +275,8 @@ type AtomicUintptr = AtomicInt[uintptr]
 
 type AtomicBool struct{ v bool }
 
-func (a *AtomicBool) Load() bool    { atomicPoint(); return a.v }
-func (a *AtomicBool) Store(v bool)  { atomicPoint(); a.v = v }
+func (a *AtomicBool) Load() bool       { atomicPoint(); return a.v }
+func (a *AtomicBool) Store(v bool)     { atomicPoint(); a.v = v }
 func (a *AtomicBool) Swap(v bool) bool { atomicPoint(); o := a.v; a.v = v; return o }
 func (a *AtomicBool) CompareAndSwap(o, n bool) bool {
 	atomicPoint()
@@ -303,8 +303,8 @@ func (a *AtomicPointer[T]) CompareAndSwap(o, n *T) bool {
 
 type AtomicValue struct{ v any }
 
-func (a *AtomicValue) Load() any     { atomicPoint(); return a.v }
-func (a *AtomicValue) Store(v any)   { atomicPoint(); a.v = v }
+func (a *AtomicValue) Load() any      { atomicPoint(); return a.v }
+func (a *AtomicValue) Store(v any)    { atomicPoint(); a.v = v }
 func (a *AtomicValue) Swap(v any) any { atomicPoint(); o := a.v; a.v = v; return o }
 func (a *AtomicValue) CompareAndSwap(o, n any) bool {
 	atomicPoint()
